@@ -44,6 +44,13 @@ checks = {
  "C17": dict(cat="model_checking", ref="§8 C17", technique="symbolic execution of the generated parser with IsTrace on; printed records parsed and checked against the executed actions and the emitted table",
    text="With IsTrace on, every printed line must be a push or a reduction in execution order, carry the text of the rule actually reduced and the triggering lookahead, and every push must be a transition of the table in the same file; checked on all paths over N symbolic token codes.",
    note=G_NOTE + " fmt.Printf is modelled by an output sink (formatting done natively on concrete operands)."),
+
+ "C09": dict(cat="translation_validation", ref="§6, §8 C09", technique="Z3 fixed-point (datalog) characterisation of the canonical LR(0) collection vs. the dumped automaton; symbolic execution of CheckIsExist + closure sort on symbolic item lists",
+   text="The item sets and GoTo transitions the real generator produced are decided by Z3's datalog engine against Horn rules characterising the canonical LR(0) collection (eleven 'bad' relations must be empty); the de-duplication kernel is additionally executed symbolically on symbolic item lists.",
+   note="Trusted base: Horn rules in tool/checks/c09.go, Z3 datalog (cross-checked with z3 5.1.0 in thorough), overlay dump helper; gosym for the unit part. Corpus: fixed + seeded random (+ all tiny grammars in thorough)."),
+ "C13": dict(cat="model_checking", ref="§8 C13", technique="symbolic execution of Lex (coroutine) + Parse over symbolic ASCII bytes and of the declaration/rule parser over symbolic token kinds, with unwinding assertions; unwinding failures confirmed by running the real CLI under a deadline",
+   text="Termination as an unwinding assertion: every loop of the real lexer and grammar-file parser is bounded (300) while the input is seed + L unconstrained ASCII bytes, or a stream of N tokens of any kind followed by the end of the stream. A path that exceeds the bound is rendered to a file and the real CLI is run on it under a 10 s deadline; only a real hang is reported.",
+   note="Trusted base: gosym incl. its coroutine model of the lexer goroutine and ASCII models of utf8/unicode; bounded suffix lengths; generation after a successful Parse is outside (covered for corpus grammars by other checks)."),
 }
 
 na = {
